@@ -48,6 +48,7 @@ impl Model {
     }
 }
 
+fn deep() -> bool { std::env::var("VERIF_TIER").map(|t| t == "thorough").unwrap_or(false) } // thorough tier: wider bounds
 fn main() {
     std::panic::set_hook(Box::new(|_| {}));
     let mut found = 0usize;
@@ -72,7 +73,7 @@ fn main() {
         for sc in 0..nshape {
             for bits in 0u32..(1u32 << (nb * nb)) {
                 // thin out the 3-block space deterministically (1 in 3)
-                if nb == 3 && (sc as u32 * 512 + bits) % 5 != 0 { continue; }
+                if nb == 3 && !deep() && (sc as u32 * 512 + bits) % 5 != 0 { continue; }
                 let mut cfg = ControlFlowGraph::new();
                 let mut model = Model { blocks: vec![], edges: BTreeSet::new() };
                 let mut s = sc;
